@@ -72,6 +72,8 @@ impl ThreadPool {
 
     /// Starts the thread pool.
     pub fn start(&mut self) {
+        #[cfg(humphrey_verif)]
+        crate::thread::verif::pool_event(crate::thread::verif::PoolEvent::StartBegin(self.thread_count));
         let (tx, rx): (Sender<Message>, Receiver<Message>) = channel();
         let rx = Arc::new(Mutex::new(rx));
         let mut threads = Vec::with_capacity(self.thread_count);
@@ -100,14 +102,20 @@ impl ThreadPool {
 
         self.recovery_thread = Some(recovery_thread);
         self.started = true;
+        #[cfg(humphrey_verif)]
+        crate::thread::verif::pool_event(crate::thread::verif::PoolEvent::StartEnd);
     }
 
     /// Stops the thread pool.
     pub fn stop(&mut self) {
+        #[cfg(humphrey_verif)]
+        crate::thread::verif::pool_event(crate::thread::verif::PoolEvent::StopBegin);
         self.recovery_thread = None;
         self.tx.send(Message::Shutdown).unwrap();
         self.monitor = None;
         self.started = false;
+        #[cfg(humphrey_verif)]
+        crate::thread::verif::pool_event(crate::thread::verif::PoolEvent::StopEnd);
     }
 
     /// Register a monitor for the thread pool.
@@ -127,6 +135,8 @@ impl ThreadPool {
 
         let boxed_task = Box::new(task);
         let time_into_pool = Instant::now();
+        #[cfg(humphrey_verif)]
+        crate::thread::verif::pool_event(crate::thread::verif::PoolEvent::Submit);
         self.tx
             .send(Message::Function(boxed_task, time_into_pool))
             .unwrap();
@@ -150,6 +160,8 @@ impl Thread {
             .name(format!("{}", id))
             .spawn(move || {
                 let panic_marker = PanicMarker(id, panic_tx);
+                #[cfg(humphrey_verif)]
+                let rx = crate::thread::verif::TracedRx::new(id, rx);
 
                 loop {
                     // When the tx pair has been dropped (shutdown initiated), we want to break out.
@@ -171,12 +183,16 @@ impl Thread {
                                 }
                             }
 
+                            #[cfg(humphrey_verif)]
+                            let _verif_run = crate::thread::verif::RunGuard::new(id);
                             (f)()
                         }
                         Message::Shutdown => break,
                     }
                 }
 
+                #[cfg(humphrey_verif)]
+                crate::thread::verif::pool_event(crate::thread::verif::PoolEvent::WorkerExit(id));
                 drop(panic_marker);
             })
             .expect("Thread could not be spawned");
@@ -190,16 +206,26 @@ impl Thread {
 
 impl Drop for ThreadPool {
     fn drop(&mut self) {
+        #[cfg(humphrey_verif)]
+        crate::thread::verif::pool_event(crate::thread::verif::PoolEvent::DropBegin);
         if let Some(mut recovery_thread) = self.recovery_thread.take() {
             if let Some(thread) = recovery_thread.0.take() {
+                #[cfg(humphrey_verif)]
+                crate::thread::verif::pool_event(crate::thread::verif::PoolEvent::DropRecoveryHandle);
                 thread.join().unwrap();
             }
         }
 
+        #[cfg(humphrey_verif)]
+        crate::thread::verif::pool_event(crate::thread::verif::PoolEvent::DropRecoveryDone);
         for thread in &mut *self.threads.lock().unwrap() {
+            #[cfg(humphrey_verif)]
+            crate::thread::verif::pool_event(crate::thread::verif::PoolEvent::DropThread(thread.id));
             if let Some(thread) = thread.os_thread.take() {
                 drop(thread)
             }
         }
+        #[cfg(humphrey_verif)]
+        crate::thread::verif::pool_event(crate::thread::verif::PoolEvent::DropEnd);
     }
 }
